@@ -74,7 +74,7 @@ impl Sink<VmEffect> for RecSink {
         self.pending.clear();
     }
     fn consume(&mut self, e: VmEffect) {
-        self.pending.push(format!("{}@{}", e.name, &hexs(e.command.as_bytes())[..8]));
+        self.pending.push(format!("{}@{}", e.name, hexs(e.command.as_bytes())));
     }
     fn rollback(&mut self) {
         self.rollbacks += 1;
@@ -449,7 +449,17 @@ fn field_class(name: &str) -> (&'static str, bool) {
     }
 }
 
-fn tampers(h: &Honest, ci: usize, present: &[usize], thorough: bool) -> Vec<Tamper> {
+#[derive(Clone, Copy, PartialEq, Eq)]
+enum Alphabet {
+    /// in-flight mode at quick: field-edge positions, a few id bits, truncations at field starts
+    Coarse,
+    Quick,
+    Thorough,
+}
+
+fn tampers(h: &Honest, ci: usize, present: &[usize], alphabet: Alphabet) -> Vec<Tamper> {
+    let thorough = alphabet == Alphabet::Thorough;
+    let coarse = alphabet == Alphabet::Coarse;
     let w = &h.cmds[ci];
     let mut out: Vec<Tamper> = vec![];
     let mut add = |class: &'static str, name: String, wire: Wire, bound: bool| {
@@ -468,6 +478,9 @@ fn tampers(h: &Honest, ci: usize, present: &[usize], thorough: bool) -> Vec<Tamp
     };
     // ---- id
     for bit in 0..256 {
+        if coarse && ![0, 7, 128, 255].contains(&bit) {
+            continue;
+        }
         let mut x = w.clone();
         x.id[bit / 8] ^= 1 << (bit % 8);
         add("id", format!("id^bit{bit}"), x, true);
@@ -481,7 +494,7 @@ fn tampers(h: &Honest, ci: usize, present: &[usize], thorough: bool) -> Vec<Tamp
     }
     // ---- parent
     if let Prior::Single(p) = w.parent {
-        let bits: Vec<usize> = if thorough { (0..256).collect() } else { vec![0, 1, 7, 8, 127, 128, 248, 255] };
+        let bits: Vec<usize> = if thorough { (0..256).collect() } else if coarse { vec![0, 255] } else { vec![0, 1, 7, 8, 127, 128, 248, 255] };
         for bit in bits {
             let mut id = *p.id.as_array();
             id[bit / 8] ^= 1 << (bit % 8);
@@ -639,7 +652,18 @@ fn tampers(h: &Honest, ci: usize, present: &[usize], thorough: bool) -> Vec<Tamp
     }
     // ---- the data bytewise: DESIGN 4.8 over every field of the encoding
     let other = h.cmds.iter().enumerate().find(|(j, o)| *j != ci && o.data.len() == w.data.len()).map(|(_, o)| o.data.clone());
-    for c in corruptions(&w.data, &lay.fields, other.as_deref(), if thorough { Positions::All } else { Positions::AllAlphabetOnly }) {
+    let positions = match alphabet {
+        Alphabet::Thorough => Positions::All,
+        Alphabet::Quick => Positions::AllAlphabetOnly,
+        Alphabet::Coarse => Positions::FieldEdges,
+    };
+    for c in corruptions(&w.data, &lay.fields, other.as_deref(), positions) {
+        if coarse && c.name.starts_with("trunc[") {
+            let i: usize = c.name[6..c.name.len() - 1].parse().unwrap_or(0);
+            if !lay.fields.iter().any(|f| f.start == i) {
+                continue;
+            }
+        }
         let (class, bound) = field_class(&c.name);
         let mut x = w.clone();
         x.data = c.bytes;
@@ -651,11 +675,26 @@ fn tampers(h: &Honest, ci: usize, present: &[usize], thorough: bool) -> Vec<Tamp
 // ------------------------------------------------------------------------------------------------
 // one history
 
+#[derive(Clone, Copy, PartialEq, Eq, Debug)]
+enum Mode {
+    /// the modified command arrives alone; its parent is already committed
+    Single,
+    /// one open transaction: the honest parent and the modified child, in one or two add_commands
+    /// calls (the child is appended to the in-flight perspective); afterwards the transaction is
+    /// committed or dropped
+    InFlight { two_calls: bool, commit: bool },
+}
+
 struct Case {
     ci: usize,
     base_name: &'static str,
     base: Vec<usize>,
     tamper: Option<Tamper>,
+    mode: Mode,
+    /// in-flight mode: index of the parent, honest observation after base+parent and after base+parent+child
+    parent: usize,
+    ref_parent: u64,
+    ref_final: u64,
 }
 
 struct Ctx {
@@ -680,6 +719,9 @@ fn equivalent(t: &Wire, h: &Wire) -> bool {
 }
 
 fn run_case(ctx: &Ctx, h: &Honest, case: &Case) -> CaseOut {
+    if let Mode::InFlight { two_calls, commit } = case.mode {
+        return run_inflight(ctx, h, case, two_calls, commit);
+    }
     let mut o = CaseOut::default();
     let t = &mut o.tally;
     let g = GraphId::from_bytes(h.graph);
@@ -843,6 +885,185 @@ fn run_case(ctx: &Ctx, h: &Honest, case: &Case) -> CaseOut {
     o
 }
 
+/// One in-flight history (see `Mode::InFlight`).
+fn run_inflight(ctx: &Ctx, h: &Honest, case: &Case, two_calls: bool, commit: bool) -> CaseOut {
+    let mut o = CaseOut::default();
+    let t = &mut o.tally;
+    let g = GraphId::from_bytes(h.graph);
+    let cname = format!("c{}.{}", case.ci, h.names[case.ci]);
+    let mode_name = format!("in-flight({}, then {})", if two_calls { "two add_commands calls" } else { "one add_commands call" }, if commit { "commit" } else { "drop" });
+    let fail = |what: &str, e: String| -> ! { mcx::machinery_error(&format!("{cname}/{mode_name}: {what}: {e}")) };
+    let mut r = replica(&ctx.module, &ctx.observer);
+    if !case.base.is_empty() {
+        let base: Vec<Wire> = case.base.iter().map(|&j| h.cmds[j].clone()).collect();
+        r.deliver(g, &base).unwrap_or_else(|e| fail("honest delivery of the base failed", e));
+        o.transitions += 1;
+    }
+    let obs0 = r.observe(g).unwrap_or_else(|e| fail("observe", e)).map(|x| x.canon()).unwrap_or(0);
+    o.states.push(obs0);
+    t.count("evaluations", 1);
+    t.count("inflight_histories", 1);
+    let parent = &h.cmds[case.parent];
+    let honest = &h.cmds[case.ci];
+    let child: &Wire = case.tamper.as_ref().map(|x| &x.wire).unwrap_or(honest);
+    let parent_id_hex = hexs(&parent.id);
+
+    // the transaction
+    let eff_before = r.sink.committed.len();
+    let (res, commit_res): (Result<usize, String>, Option<Result<bool, String>>) = {
+        let Replica { client, sink, buffers, .. } = &mut r;
+        let out = mcx::catch(|| {
+            let mut trx = client.transaction(g);
+            let res = if two_calls {
+                match client.add_commands(&mut trx, sink, std::slice::from_ref(parent), buffers, MemSpill::new) {
+                    Ok(1) => {}
+                    other => return (Err(format!("MACHINERY: honest parent not added: {other:?}")), None),
+                }
+                client.add_commands(&mut trx, sink, std::slice::from_ref(child), buffers, MemSpill::new).map_err(|e| format!("add_commands: {e}"))
+            } else {
+                let both = [parent.clone(), child.clone()];
+                client.add_commands(&mut trx, sink, &both, buffers, MemSpill::new).map_err(|e| format!("add_commands: {e}"))
+            };
+            // on success the transaction is always committed; on error it is committed or dropped
+            let c = if res.is_ok() || commit { Some(client.commit(trx, sink, buffers, MemSpill::new).map_err(|e| format!("commit: {e}"))) } else { None };
+            (res, c)
+        });
+        match out {
+            Ok(x) => x,
+            Err(msg) => (Err(format!("PANIC: {msg}")), None),
+        }
+    };
+    o.transitions += 1;
+    if let Err(e) = &res {
+        if e.starts_with("MACHINERY") {
+            fail("setup", e.clone());
+        }
+    }
+    let obs1 = r.observe(g).unwrap_or_else(|e| fail("observe after the transaction", e)).map(|x| x.canon()).unwrap_or(0);
+    o.states.push(obs1);
+    let new_effects: Vec<String> = r.sink.committed[eff_before..].to_vec();
+    let foreign_effects = new_effects.iter().filter(|e| !e.ends_with(&parent_id_hex)).count();
+
+    let Some(tam) = &case.tamper else {
+        // honest in-flight history
+        let want_n = if two_calls { 1 } else { 2 };
+        if res == Ok(want_n) && matches!(commit_res, Some(Ok(_))) && obs1 == case.ref_final {
+            t.count("accepted_honest", 1);
+            t.count("inflight_accepted_honest", 1);
+            t.outcome("inflight:honest:accepted");
+        } else {
+            t.violation(format!("{cname}/in-flight/honest"), format!("{mode_name}: honest parent+child not accepted: {res:?} commit {commit_res:?}"), json!({"command": cname, "base": case.base, "mode": mode_name}));
+        }
+        return o;
+    };
+
+    let mut shape = tam.name.clone();
+    for j in 0..h.cmds.len() {
+        shape = shape.replace(&format!("c{j}"), "other");
+    }
+    let vkey = format!("{}:{shape}", tam.class);
+    let what = format!("{cname}/{mode_name}/{}:{}", tam.class, tam.name);
+    let replay = || json!({"command": cname, "base": case.base, "parent": case.parent, "mode": mode_name, "class": tam.class, "modification": tam.name, "wire": tam.wire.to_json(), "honest_wire": honest.to_json()});
+    t.count("deliveries_tampered", 1);
+    t.count("inflight_deliveries_tampered", 1);
+    t.count(&format!("class_{}", tam.class), 1);
+    t.count(&format!("inflight_class_{}", tam.class), 1);
+    let equiv = equivalent(&tam.wire, honest);
+    // `Ok` that only covers the parent means the modified command was skipped as already present
+    let skipped = matches!(res, Ok(n) if n == if two_calls { 0 } else { 1 });
+    let refused = res.is_err() || skipped;
+    let outcome = match &res {
+        Ok(_) if skipped => "skipped".to_string(),
+        Ok(_) => "accepted".to_string(),
+        Err(e) if e.starts_with("PANIC") => format!("panicked({})", e.trim_start_matches("PANIC: ")),
+        Err(e) => {
+            let e = e.split(':').take(3).collect::<Vec<_>>().join(":");
+            let e = if e.contains("no such parent") { "add_commands: no such parent".to_string() } else { e };
+            format!("refused({})", e.trim())
+        }
+    };
+    // expected observation after the transaction
+    // an init command is stored by `add_commands` itself (the graph is created outside the
+    // transaction), so with the init as parent the honest parent is present even after a drop
+    let committed = matches!(commit_res, Some(Ok(_))) || (case.parent == 0 && h.cmds[0].parent == Prior::None && commit_res.is_none());
+    let want_obs = if committed { case.ref_parent } else { obs0 };
+    let clean = obs1 == want_obs && foreign_effects == 0 && (commit_res.is_none() || committed);
+    let scope = if equiv {
+        "equivalent_encoding"
+    } else if tam.bound {
+        "named_field"
+    } else {
+        "unnamed_field"
+    };
+    t.outcome(&format!("inflight:{scope}:{}:{outcome}", tam.class));
+    o.states.push(mcx::fnv64(format!("inflight|{}|{}|{}|{obs1}", case.ci, tam.class, outcome).as_bytes()));
+    if let Err(e) = &res {
+        if let Some(msg) = e.strip_prefix("PANIC: ") {
+            t.count("panics_on_modified_input", 1);
+            if tam.bound && !equiv {
+                t.violation(format!("panic:{msg}"), format!("delivering a modified command panicked the replica instead of refusing it (first seen: {what}); location {}", mcx::last_panic_location()), replay());
+            } else {
+                t.count("panics_on_unnamed_field", 1);
+            }
+        }
+    }
+    if equiv {
+        t.count("equivalent_encoding_cases", 1);
+    } else if tam.bound {
+        if refused && clean {
+            t.count("rejected_tampered", 1);
+            t.count("inflight_rejected_tampered", 1);
+            if matches!(&res, Err(e) if e.contains("policy error")) {
+                t.count("rejected_by_policy", 1);
+                t.nontrivial(&what);
+            } else {
+                t.count("rejected_structurally", 1);
+            }
+        } else {
+            t.nontrivial(&what);
+            let mut why = vec![];
+            if !refused {
+                why.push(format!("the add_commands call containing it returned {res:?}"));
+            }
+            if obs1 != want_obs {
+                why.push(format!("observation after the transaction is not the honest observation of {}", if committed { "base+parent" } else { "the base" }));
+            }
+            if foreign_effects > 0 {
+                why.push(format!("{foreign_effects} effect(s) not belonging to the parent were committed to the sink: {new_effects:?}"));
+            }
+            if let Some(Err(e)) = &commit_res {
+                why.push(format!("commit of the transaction failed: {e}"));
+            }
+            t.count(&format!("violations_in_class_{}", tam.class), 1);
+            t.count("inflight_violations", 1);
+            t.violation(vkey.clone(), format!("{cname} on base {:?}, {mode_name}: modified command ({}) was not cleanly refused [{outcome}]: {}", case.base, tam.name, why.join("; ")), replay());
+        }
+    } else {
+        t.count("unnamed_field_cases", 1);
+        if refused && clean {
+            t.count("unnamed_field_refused", 1);
+        } else {
+            t.count("unnamed_field_accepted_or_traced", 1);
+        }
+    }
+    // afterwards the honest delivery must be accepted and give the honest observation
+    if refused && clean {
+        let later: Vec<Wire> = if committed { vec![honest.clone()] } else { vec![parent.clone(), honest.clone()] };
+        let res2 = r.deliver(g, &later);
+        o.transitions += 1;
+        let obs2 = r.observe(g).unwrap_or_else(|e| fail("observe after honest delivery", e)).map(|x| x.canon()).unwrap_or(0);
+        o.states.push(obs2);
+        t.count("two_step_histories", 1);
+        if res2 == Ok(later.len()) && obs2 == case.ref_final {
+            t.count("honest_accepted_after_tampered", 1);
+            t.count("two_step_observation_equal_to_honest", 1);
+        } else if !equiv {
+            t.violation(format!("{vkey}:then-honest"), format!("{cname} on base {:?}, {mode_name}: after the refused modified command ({}) the honest delivery gave {res2:?} / {}", case.base, tam.name, if obs2 == case.ref_final { "the honest observation" } else { "a different observation" }), replay());
+        }
+    }
+    o
+}
+
 // ------------------------------------------------------------------------------------------------
 
 pub fn run(args: &Args) {
@@ -865,13 +1086,50 @@ pub fn run(args: &Args) {
             bases.push(("all-non-descendants", maxb[ci].to_vec()));
         }
         for (bi, (bn, base)) in bases.into_iter().enumerate() {
-            cases.push(Case { ci, base_name: bn, base: base.clone(), tamper: None });
-            for tm in tampers(&h, ci, &base, thorough) {
+            cases.push(Case { ci, base_name: bn, base: base.clone(), tamper: None, mode: Mode::Single, parent: 0, ref_parent: 0, ref_final: 0 });
+            for tm in tampers(&h, ci, &base, if thorough { Alphabet::Thorough } else { Alphabet::Quick }) {
                 // quick: the larger base only for the modifications that depend on what else is stored
                 if bi == 1 && !thorough && !matches!(tm.class, "parent_id" | "parent_kind" | "parent_max_cut" | "swap" | "id") {
                     continue;
                 }
-                cases.push(Case { ci, base_name: bn, base: base.clone(), tamper: Some(tm) });
+                cases.push(Case { ci, base_name: bn, base: base.clone(), tamper: Some(tm), mode: Mode::Single, parent: 0, ref_parent: 0, ref_final: 0 });
+            }
+        }
+    }
+    // in-flight mode: base = ancestors of the parent; [honest parent, modified child] in one transaction
+    {
+        let observer = device(args.seed, 2);
+        for ci in 1..6 {
+            let Prior::Single(pa) = h.cmds[ci].parent else { mcx::machinery_error("non-init honest command without a single parent") };
+            let p = h.cmds.iter().position(|c| c.id == *pa.id.as_array()).unwrap_or_else(|| mcx::machinery_error("parent not in script"));
+            let base = anc[p].to_vec();
+            // honest reference observations
+            let g = GraphId::from_bytes(h.graph);
+            let mut r = replica(&module, &observer);
+            let mut seq: Vec<Wire> = base.iter().map(|&j| h.cmds[j].clone()).collect();
+            if !seq.is_empty() {
+                r.deliver(g, &seq).unwrap_or_else(|e| mcx::machinery_error(&format!("reference base: {e}")));
+            }
+            seq = vec![h.cmds[p].clone()];
+            r.deliver(g, &seq).unwrap_or_else(|e| mcx::machinery_error(&format!("reference parent: {e}")));
+            let ref_parent = r.observe(g).ok().flatten().map(|x| x.canon()).unwrap_or(0);
+            r.deliver(g, std::slice::from_ref(&h.cmds[ci])).unwrap_or_else(|e| mcx::machinery_error(&format!("reference child: {e}")));
+            let ref_final = r.observe(g).ok().flatten().map(|x| x.canon()).unwrap_or(0);
+            let mut present = base.clone();
+            present.push(p);
+            let tms = tampers(&h, ci, &present, if thorough { Alphabet::Thorough } else { Alphabet::Coarse });
+            for two_calls in [false, true] {
+                for commit in [false, true] {
+                    // quick: (one call, drop) and (two calls, commit); thorough: all four
+                    if !thorough && two_calls != commit {
+                        continue;
+                    }
+                    let mode = Mode::InFlight { two_calls, commit };
+                    cases.push(Case { ci, base_name: "in-flight", base: base.clone(), tamper: None, mode, parent: p, ref_parent, ref_final });
+                    for tm in &tms {
+                        cases.push(Case { ci, base_name: "in-flight", base: base.clone(), tamper: Some(tm.clone()), mode, parent: p, ref_parent, ref_final });
+                    }
+                }
             }
         }
     }
@@ -886,7 +1144,7 @@ pub fn run(args: &Args) {
     // honest final observations per (command, base)
     let mut honest_final: BTreeMap<String, u64> = BTreeMap::new();
     for (case, out) in cases.iter().zip(&outs) {
-        if case.tamper.is_none() {
+        if case.tamper.is_none() && case.mode == Mode::Single {
             if let Some(s) = out.states.last() {
                 honest_final.insert(format!("{}:{}", case.ci, case.base_name), *s);
             }
@@ -927,16 +1185,18 @@ pub fn run(args: &Args) {
     rep.set(
         "bounds",
         format!(
-            "2 registered devices + 1 observing replica; honest script of 6 commands (one fork); bases: ancestors{}; modifications: every id bit, parent id bits ({}), parent := every stored command, parent max-cut, parent kind (none/merge), priority, policy bytes, author := other/unregistered device, kind := every command name, fields/signature/envelope/data swaps between honest commands, DESIGN 4.8 over every byte of the serialized command (7-value alphabet{}, every truncation, trailing byte, re-cuts, length fields); every refused modification followed by the honest delivery",
+            "2 registered devices + 1 observing replica; honest script of 6 commands (one fork); bases: ancestors{}; modifications: every id bit, parent id bits ({}), parent := every stored command, parent max-cut, parent kind (none/merge), priority, policy bytes, author := other/unregistered device, kind := every command name, fields/signature/envelope/data swaps between honest commands, DESIGN 4.8 over every byte of the serialized command (7-value alphabet{}, every truncation, trailing byte, re-cuts, length fields); every refused modification followed by the honest delivery; in-flight mode for c1..c5: base = ancestors of the parent, one transaction with [honest parent, modified child] in one and in two add_commands calls, then commit or drop ({}), then the honest delivery ({} alphabet)",
             if thorough { " and all-non-descendants for every modification" } else { " (+ all-non-descendants for id/parent/swap modifications)" },
             if thorough { "all 256" } else { "8" },
-            if thorough { ", every single-bit flip" } else { "" }
+            if thorough { ", every single-bit flip" } else { "" },
+            if thorough { "all four combinations" } else { "one call+drop and two calls+commit" },
+            if thorough { "full" } else { "coarse: 4 id bits, 2 parent-id bits, 5 positions per field of the serialized command, truncations at field starts" }
         ),
     );
     rep.set("rule", "states = distinct observation hashes and distinct (command, field class, outcome, observation) tuples; transitions = sync deliveries executed (add_commands+commit); traces = histories run on the real ClientState/VmPolicy");
     rep.assume("the policy (harness copy of the repository's example policy) verifies signatures in every open block; keys, nonces deterministic from VERIF_SEED; DefaultCipherSuite");
-    rep.assume("a delivery is one transaction with one add_commands call, committed on success and dropped on error, as the repository's syncers do");
+    rep.assume("single mode: a delivery is one transaction with one add_commands call, committed on success and dropped on error, as the repository's syncers do; in-flight mode: the parent and the modified child share one transaction, which is committed or dropped after the failing call");
     rep.assume("modifications of priority, policy bytes and parent max-cut (not named by the statement) and re-encodings that decode to the identical command are recorded, not judged");
-    guards(&mut rep, &["deliveries_tampered", "class_id", "class_parent_id", "class_parent_kind", "class_author", "class_kind", "class_payload", "class_signature", "class_swap", "class_data_framing"], &["accepted_honest", "rejected_tampered", "rejected_by_policy", "honest_accepted_after_tampered", "two_step_observation_equal_to_honest"]);
+    guards(&mut rep, &["deliveries_tampered", "inflight_histories", "inflight_deliveries_tampered", "inflight_class_id", "inflight_class_signature", "inflight_class_payload", "inflight_class_author", "inflight_class_kind", "class_id", "class_parent_id", "class_parent_kind", "class_author", "class_kind", "class_payload", "class_signature", "class_swap", "class_data_framing"], &["accepted_honest", "inflight_accepted_honest", "rejected_tampered", "inflight_rejected_tampered", "rejected_by_policy", "honest_accepted_after_tampered", "two_step_observation_equal_to_honest"]);
     rep.finish()
 }
